@@ -249,6 +249,8 @@ package oauth2
 //@   ensures [C05.scopes-still-allowed] err == nil ==> (forall j int :: 0 <= j && j < len(orig.GetGrantedScopes()) ==> call(c.Config.GetScopeStrategy(ctx), request.GetClient().GetScopes(), orig.GetGrantedScopes()[j]))
 //@   ensures [C05.audience-still-allowed] err == nil ==> call(c.Config.GetAudienceStrategy(ctx), request.GetClient().GetAudience(), orig.GetGrantedAudience()) == nil
 //@   ensures [C05.granted-from-original-only] err == nil ==> (forall x string :: insl(request.GetGrantedScopes(), x) ==> insl(old(request.GetGrantedScopes()), x) || insl(orig.GetGrantedScopes(), x)) && (forall x string :: insl(request.GetGrantedAudience(), x) ==> insl(old(request.GetGrantedAudience()), x) || insl(orig.GetGrantedAudience(), x))
+//@   ensures [C12.refresh-confined-to-registration] err == nil ==> (forall j int :: 0 <= j && j < len(orig.GetGrantedScopes()) ==> call(c.Config.GetScopeStrategy(ctx), request.GetClient().GetScopes(), orig.GetGrantedScopes()[j])) && call(c.Config.GetAudienceStrategy(ctx), request.GetClient().GetAudience(), orig.GetGrantedAudience()) == nil
+//@   ensures [C12.refresh-carries-only-granted] err == nil ==> (forall x string :: insl(request.GetGrantedScopes(), x) ==> insl(old(request.GetGrantedScopes()), x) || insl(orig.GetGrantedScopes(), x)) && (forall x string :: insl(request.GetGrantedAudience(), x) ==> insl(old(request.GetGrantedAudience()), x) || insl(orig.GetGrantedAudience(), x))
 //@   ensures [C05.refresh-scope-needed] err == nil ==> len(c.Config.GetRefreshTokenScopes(ctx)) == 0 || orig.GetGrantedScopes().HasOneOf(c.Config.GetRefreshTokenScopes(ctx))
 //@   invariant loop#1 [C05.scopes-still-allowed] $i <= len(originalRequest.GetGrantedScopes()) && originalRequest != request && originalRequest.GetGrantedScopes() == pre(originalRequest.GetGrantedScopes())
 //@   invariant loop#1 [C05.scopes-still-allowed] forall j int :: 0 <= j && j < $i ==> call(c.Config.GetScopeStrategy(ctx), request.GetClient().GetScopes(), originalRequest.GetGrantedScopes()[j])
@@ -315,17 +317,17 @@ package oauth2
 
 //@ func (*HMACSHAStrategyUnPrefixed).GenerateAccessToken
 //@   requires h != nil && h.Enigma != nil && held[addr(h.Enigma.Mutex)] == 0 && (forall m2 V :: held[m2] != 0 ==> mrank(m2) < mrank(addr(h.Enigma.Mutex)))
-//@   modifies held
+//@   modifies acq, held
 //@   ensures [C19.locks-released] held == old(held)
 //@   ensures [C06.generate-shape] err == nil ==> token != "" && signature == hmacsig(token) && authentic(h.Enigma, token)
 //@ func (*HMACSHAStrategyUnPrefixed).GenerateRefreshToken
 //@   requires h != nil && h.Enigma != nil && held[addr(h.Enigma.Mutex)] == 0 && (forall m2 V :: held[m2] != 0 ==> mrank(m2) < mrank(addr(h.Enigma.Mutex)))
-//@   modifies held
+//@   modifies acq, held
 //@   ensures [C19.locks-released] held == old(held)
 //@   ensures [C06.generate-shape] err == nil ==> token != "" && signature == hmacsig(token) && authentic(h.Enigma, token)
 //@ func (*HMACSHAStrategyUnPrefixed).GenerateAuthorizeCode
 //@   requires h != nil && h.Enigma != nil && held[addr(h.Enigma.Mutex)] == 0 && (forall m2 V :: held[m2] != 0 ==> mrank(m2) < mrank(addr(h.Enigma.Mutex)))
-//@   modifies held
+//@   modifies acq, held
 //@   ensures [C19.locks-released] held == old(held)
 //@   ensures [C06.generate-shape] err == nil ==> token != "" && signature == hmacsig(token) && authentic(h.Enigma, token)
 
